@@ -184,18 +184,25 @@ def main(argv=None):
                                 os.environ[k] = v
                     reset()
                     m, outcome, before, after = inject.run_monitored(lambda: fn(early), ('V1', 'V2'))
-                    r = inject.admissible_limit(m)
+                    r, still_open = inject.admissibility(m)
                     win = min((mu['at'] for mu in m.mutations if mu.get('cleanup') is None), default=None)
                     rec_leak = inject.env_diff(before, after)
                     adm = [e for e in m.events[:r] if e['adm']]
                     flagged = inwin = 0
                     for e in adm:
-                        for exc in ('OSError(EIO)', 'RuntimeError'):
+                        for exc, when in (('OSError(EIO)', 'entry'), ('RuntimeError', 'entry'),
+                                          ('ValueError', 'return')):
+                            if when == 'return' and e['i'] in still_open:
+                                continue
                             reset()
-                            f = inject.Fault(e['i'], exc, (e['caller'], e['line'], e['callee']))
+                            f = inject.Fault(e['i'], exc, (e['caller'], e['line'], e['callee']), when=when)
                             m2, o2, b2, a2 = inject.run_monitored(lambda: fn(early), ('V1', 'V2'), fault=f,
                                                                   keep_events=False)
-                            assert m2.fired is not None and m2.diverged is None, (name, e)
+                            assert m2.diverged is None, (name, e)
+                            if when == 'entry':
+                                assert m2.fired is not None, (name, e)
+                            elif m2.fired is None:
+                                assert early, (name, e, 'return fault lost although the call returned')
                             d = inject.env_diff(b2, a2)
                             if d:
                                 flagged += 1
